@@ -85,7 +85,7 @@ def cases(tier: str, seed: int) -> List[Dict[str, Any]]:
             for cfg in lattice(op, 1, fixed=fx, restrict=rs):
                 try:
                     t_ = op.make(cfg, __import__("torch").Generator().manual_seed(0))
-                except Exception:  # noqa
+                except (RuntimeError, ValueError, KeyError, IndexError):  # the builder cannot make this configuration
                     continue
                 fl = [k for k, v in t_.items() if v.is_floating_point() and k not in ("attn_mask",)]
                 if len(fl) < 2:
